@@ -15,6 +15,8 @@ verus! {
 
 global size_of usize == 8;   // ASSUMED: 64-bit target
 
+//@INCLUDE prelude/std_extra.rs
+
 broadcast use vstd::std_specs::hash::group_hash_axioms;
 
 // ------------------------------------------------------------------ time (ASSUMED, uninterpreted)
